@@ -7,7 +7,7 @@ COQ = os.path.join(VERIF, "coq")
 OCAML = os.path.join(VERIF, "ocaml")
 EVID = os.environ.get("VERIF_EVID", os.path.join(VERIF, "evidence"))
 REPLAYS = os.path.join(EVID, "replays")
-PROPERTY_FILES = ["Properties", "Properties2"]
+PROPERTY_FILES = ["Properties", "Properties2", "Properties3"]
 FORBIDDEN = r"\bAdmitted\b|\badmit\b|\bAxiom\b|\bParameter\b|\bConjecture\b|Unset Guard|bypass_check|type-in-type|impredicative-set|Admit Obligations"
 
 TRUSTED_BASE = [
@@ -204,7 +204,7 @@ def coqchk(run_if_missing=False):
     if not run_if_missing:
         return {"status": "not-run"}
     t0 = time.time()
-    r = run(["timeout", "7200", "coqchk", "-silent", "-o", "-Q", ".", "GB", "GB.Properties", "GB.Properties2"], cwd=COQ)
+    r = run(["timeout", "7200", "coqchk", "-silent", "-o", "-Q", ".", "GB"] + ["GB." + pf for pf in PROPERTY_FILES], cwd=COQ)
     out = r.stdout + r.stderr
     axioms = []
     m = re.search(r"\* Axioms:\s*(.*?)(?:\n\*|\Z)", out, flags=re.S)
